@@ -1,5 +1,5 @@
 (* Pins_C09.v — the statements of Props_C09.v, pinned: weakening a theorem there breaks this file. *)
-From FV Require Import Base WalkModel WalkProofs WalkProofs2 WalkProofs3 WalkProofs4 Props_C09.
+From FV Require Import Base WalkModel WalkProofs WalkProofs2 WalkProofs3 WalkProofs4 WalkProofs5 Props_C09.
 Open Scope N_scope.
 Check C09_sound :
   forall sel_file sel_dir ign1 t c sched roots l x,
@@ -56,6 +56,20 @@ Check C09_overlap_no_loss :
     (conservative sel_file sel_dir -> c_follow c = false ->
      forall roots0 x, incl roots0 roots -> selected sel_file sel_dir ign1 t c false roots0 x ->
                       size_ok t c x = true -> In x l).
+Check C09_follow_delivers_once :
+  forall sel_file sel_dir ign1 t c sched roots l,
+    c_follow c = true ->
+    walk sel_file sel_dir ign1 t c sched roots = Done l -> NoDup l.
+Check C09_follow_scan_is_walk :
+  forall sel_file sel_dir ign1 t c sched roots found,
+    c_follow c = true ->
+    walk sel_file sel_dir ign1 t c sched roots = Done found ->
+    scan sel_file sel_dir ign1 t c sched roots = Done (filter (size_ok t c) found).
+Check C09_missing_input_path_ignored :
+  forall sel_file sel_dir ign1 t c sched r1 bad r2,
+    stat t (absolute t bad) = None ->
+    walk sel_file sel_dir ign1 t c sched (r1 ++ bad :: r2) = walk sel_file sel_dir ign1 t c sched (r1 ++ r2) /\
+    scan sel_file sel_dir ign1 t c sched (r1 ++ bad :: r2) = scan sel_file sel_dir ign1 t c sched (r1 ++ r2).
 (* the definitions the statements rest on, pinned as well *)
 Check conservative : (path -> bool) -> (path -> bool) -> Prop.
 Check (eq_refl : conservative = fun sel_file sel_dir => forall p d, sel_file p = true -> prefix d p -> sel_dir d = true).
